@@ -216,6 +216,7 @@ class DiameterEapAnswer(DiameterEap):
         self.header.is_request = False
         self.header.is_proxyable = True
 
+        setattr(self, "reply_message", [])
         setattr(self, "auth_application_id", 5)
         setattr(self, "state_class", [])
         setattr(self, "configuration_token", [])
